@@ -6,7 +6,8 @@ import env as envmod
 import wharness
 
 MODULE = "Alpen.Props.C01"
-WEIGHTS = {"select_delete": 3, "delete": 5, "check": 1.5, "decide": 0.7, "search": 0.7, "pull": 1.5, "op": 3, "fault": 0.6}
+WEIGHTS = {"select_delete": 3, "delete": 5, "check": 1.5, "decide": 0.7, "search": 0.7, "pull": 1.5, "op": 3, "fault": 0.6, "stale": 1.0}
+SEARCH_WEIGHTS = {"select_delete": 4, "delete": 5, "stale": 4, "op": 2, "check": 0.5, "pull": 1}
 
 
 def run_histories(ctx, weights, ncases, nsteps, stream, space_pressure=True):
@@ -75,6 +76,14 @@ def run(ctx):
                             "after every step the real index + storage are compared with the Lean World model and oracles judge every "
                             "unlink (fresh count of healthy archive copies elsewhere), every selection and every healthy copy's bytes. "
                             "distinct = whole op line sequence; non-trivial = at least 2 steps")
+    if (not ok or ctx.corr_broken) and not [v for v in ctx.violations if v[3]]:
+        # a proof obligation or the correspondence broke: directed search for a concrete failing history
+        ctx.notes.append("directed search started (proof/correspondence broken)")
+        more = run_histories(ctx, SEARCH_WEIGHTS, 700 if ctx.quick() else 6000, 14, "directed-search(C01)")
+        for h in more:
+            for (cls, msg, d) in h["problems"]:
+                if cls in ("unlink", "select", "healthy-touched", "root"):
+                    ctx.violation(f"{cls}:{msg[:40]}", msg, {"kind": "history", "ops": [l for l in h["lines"] if l.startswith("w.")], "step": d})
     from props.c06 import finish_search
     finish_search(ctx, ok)
 
